@@ -591,6 +591,43 @@ func (s *session) noteFS(r *rec, what string) {
 	r.emit("scenario", "scenario fs:"+strings.ReplaceAll(strings.ReplaceAll(what, s.root+"/", ""), " ", "_"), "ok")
 }
 
+// opRawNoBarrier: one datagram WITHOUT the barrier read behind it (the barrier's own record makes the reader look
+// up the sentinel watch, which overwrites whatever the reader remembers from the record before). The op is complete
+// when the reader has taken the datagram off the socket and nothing new has been delivered for a few milliseconds;
+// only for corpus scripts whose records produce a known, small number of events.
+func (s *session) opRawNoBarrier(r *rec, buf []byte) {
+	marks := s.marks()
+	if _, err := unix.Write(s.injectFd, buf); err != nil {
+		check(fmt.Errorf("inject write: %w", err))
+	}
+	deadline := time.Now().Add(2 * time.Second)
+	for time.Now().Before(deadline) { // SIOCOUTQ: bytes of ours the peer has not read yet
+		if n, err := unix.IoctlGetInt(s.injectFd, unix.SIOCOUTQ); err == nil && n == 0 {
+			break
+		}
+		time.Sleep(50 * time.Microsecond)
+	}
+	last, stable := -1, 0
+	for stable < 40 && time.Now().Before(deadline) {
+		s.obs.mu.Lock()
+		n := len(s.obs.events) + len(s.obs.errs)
+		s.obs.mu.Unlock()
+		if n == last {
+			stable++
+		} else {
+			last, stable = n, 0
+		}
+		time.Sleep(100 * time.Microsecond)
+	}
+	s.obs.mu.Lock()
+	evs := append([]fsnotify.Event(nil), s.obs.events[s.evSeen:]...)
+	errs := append([]error(nil), s.obs.errs[s.erSeen:]...)
+	s.evSeen, s.erSeen = len(s.obs.events), len(s.obs.errs)
+	s.obs.mu.Unlock()
+	op := fmt.Sprintf("raw %s marks=%s", hex.EncodeToString(buf), marks)
+	r.emit("raw", op, fmtOut("nil", evs, errs)+" | "+stateStr(s.w))
+}
+
 func recsBytes(recs ...rawRec) []byte {
 	var b []byte
 	for _, x := range recs {
@@ -1286,6 +1323,26 @@ var scripts = []func(r *rec, s *session, u *universe){
 		s.opAdd(r, filepath.Join(d, "sub"), 0x1f, false)
 		s.opAdd(r, d, 0x1f, false)
 		s.opAdd(r, filepath.Join(d, "nope", "x"), 0x1f, false)
+		s.opWatchList(r)
+	},
+	// the late IN_IGNORED of a descriptor whose path was re-added meanwhile, with NO other watch's record handled in
+	// between: Add(f); f is renamed away (IN_MOVE_SELF: the watch ends, inotify_rm_watch); a new f is created and added
+	// again (a fresh descriptor); only now the kernel's IN_IGNORED for the old descriptor is read. Whatever the reader
+	// still remembers of the old watch must not touch the new one: f stays listed and removable (C09), and so do the
+	// records still queued for the moved file (C02).
+	func(r *rec, s *session, u *universe) {
+		f := filepath.Join(u.root, "f1")
+		s.opAdd(r, f, 0x1f, false)
+		wd := s.wdFor(f)
+		check(os.Rename(f, f+".moved"))
+		s.noteFS(r, "rename f1 f1.moved")
+		s.opRawNoBarrier(r, recsBytes(rawRec{wd: wd, mask: inMoveSelf}))
+		check(os.WriteFile(f, []byte("new"), 0o644))
+		s.noteFS(r, "create f1")
+		s.opAdd(r, f, 0x1f, false)
+		s.opRawNoBarrier(r, recsBytes(rawRec{wd: wd, mask: inModify}, rawRec{wd: wd, mask: inIgnored}))
+		s.opWatchList(r)
+		s.opRemove(r, f)
 		s.opWatchList(r)
 	},
 	// stale read buffer: two or three reads with the same layout (same watches, same offsets, same padded
